@@ -10,10 +10,12 @@ from vlib.harness import Sub
 
 PROPERTY = "C11"
 RULE = ("C03's generator (3-D meshes only: a 2-D mesh has no normal direction) plus a thickness dz from one pixel to the domain size in a random length "
-        "unit (slabs thinner than the cells they cut at ~40%), resolution int or dict with any subset of x, y, z, and a "
-        "call-level reduction among sum, mean, min, max, nansum, nanmean, nanmin, nanmax.  Oracle: depth samples z_k = "
+        "unit (slabs thinner than the cells they cut at ~40%), window given or omitted (10%), resolution int or dict with x, y "
+        "and optionally z (a few dicts without x and/or y), and a reduction among sum, mean, min, max, nansum, nanmean, nanmin, "
+        "nanmax named at the call or carried by every Layer while the call names another one; a quarter of the cases is repeated "
+        "with 1 thread and with 3 threads on permuted cells.  Oracle: depth samples z_k = "
         "-dz/2 + (k+1/2) dz/nz with nz = resolution['z'] if given, else the integer nearest to dz / mean pixel size "
-        "(either neighbour accepted near a tie); every (i,j,k) sample located by brute force; expected pixel = numpy's "
+        "(either neighbour accepted near a tie, and n+1 as well where its step is closer to the pixel size than n's); every (i,j,k) sample located by brute force; expected pixel = numpy's "
         "reduction over the column with NaN for missing samples (numpy's own semantics decide when the pixel is missing), "
         "times dz/nz with unit x position unit for sum/nansum, unchanged unit otherwise; compared as physical "
         "quantities; columns containing a face-ambiguous sample are not judged.  non-trivial = >=1 column crosses >=2 "
@@ -33,12 +35,22 @@ def thick_map(case, r):
     dg = meshes.datagroup(m, osyris)
     su = c03.setup_map(case, m)
     d = m.d
+    omitted = not case["window"]["given"]
+    res = case["res"]
+    if omitted or case.get("res_form"):
+        # the pixel size is then read from the returned grid: at least two pixels per axis
+        res = {"x": max(res if isinstance(res, int) else res["x"], 2), "y": max(res if isinstance(res, int) else res["y"], 2)}
+        case = dict(case, res=res)
     kw, (n, u, v) = c03.call_kwargs(case, m, su, thick=True)
     # thickness
-    res = case["res"]
     nx = res if isinstance(res, int) else res["x"]
     ny = res if isinstance(res, int) else res["y"]
-    pix = 0.5 * (su["dx"] / nx + su["dy"] / ny)
+    form = case.get("res_form")
+    if omitted:
+        # without a window the map spans the cells near the slab: about the domain
+        pix = 0.5 * (case["mesh"]["L"] / nx + case["mesh"]["L"] / ny)
+    else:
+        pix = 0.5 * (su["dx"] / (256 if form in ("y_z", "z_only") else nx) + su["dy"] / (256 if form in ("x_z", "z_only") else ny))
     smed, L = float(np.median(m.size)), case["mesh"]["L"]
     z = case["dz"]
     lo_hi = {"pixel": (pix, 2 * pix), "thin": (0.05 * smed, 0.9 * smed), "cell": (0.9 * smed, 2 * smed),
@@ -51,24 +63,59 @@ def thick_map(case, r):
     pu = case["mesh"]["pos_unit"]
     fz = um.parse(pu)[0] / um.parse(z["unit"])[0]
     kw["dz"] = float(dzw * fz) * osyris.units(z["unit"])
-    kw["operation"] = case["op"]
+    other_op = {"sum": "mean", "nansum": "nanmean", "mean": "sum", "nanmean": "nansum", "min": "max", "nanmin": "nanmax",
+                "max": "min", "nanmax": "nanmin"}[case["op"]]
+    if case.get("op_at") == "layer":
+        # the Layers carry the reduction; the call names another one, which must not apply to them
+        kw["operation"] = other_op
+        layers = c03.make_layers(case, dg, operation=case["op"])
+        r.label("operation_on_layer")
+    else:
+        kw["operation"] = case["op"]
+        layers = c03.make_layers(case, dg)
     if case["resz"] is not None:
         rs = {"x": nx, "y": ny, "z": case["resz"]} if isinstance(res, int) else dict(res, z=case["resz"])
+        if form == "x_z":
+            rs.pop("y")
+        elif form == "y_z":
+            rs.pop("x")
+        elif form == "z_only":
+            rs = {"z": case["resz"]}
         kw["resolution"] = rs
-    layers = c03.make_layers(case, dg)
+        if form:
+            r.label("resolution_" + form)
+    if omitted:
+        r.label("window_omitted")
     r.label(f"d{d}", "op_" + case["op"], "dz_" + z["cls"], "resz_given" if case["resz"] is not None else "resz_default")
     if dzw < smed:
         r.label("slab_thinner_than_cells")
     p, exc = c03.run_map(layers, kw)
+    if exc is None and (omitted or form):
+        # pixel size of the grid that was actually used
+        xs_, ys_, _ = c03.pixel_coords(p, case, su, kw)
+        if len(xs_) < 2 or len(ys_) < 2:
+            r.bad(["pixel-grid", "count"], f"{len(xs_)} x {len(ys_)} pixels for resolution {kw.get('resolution')}")
+            return
+        pix = 0.5 * (abs(xs_[1] - xs_[0]) + abs(ys_[1] - ys_[0]))
+        if dzw < pix * (1 - 1e-9):
+            r.label("skipped_dz_below_one_pixel")        # outside the quantifier (dz from one pixel up)
+            return
     # expected depth resolution
     if case["resz"] is not None:
         nz_cands = [case["resz"]]
     else:
         q = dzw / pix
-        nz_cands = sorted({max(int(np.floor(q + 0.5)), 0), max(int(np.ceil(q - 0.5)), 0), int(round(q))})
+        nz_cands = {max(int(np.floor(q + 0.5)), 0), max(int(np.ceil(q - 0.5)), 0), int(round(q))}
         if abs(q - np.floor(q) - 0.5) < 1e-6:
-            nz_cands = sorted({int(np.floor(q)), int(np.ceil(q))})
-        nz_cands = [k for k in nz_cands if k >= 1] or [1]
+            nz_cands = {int(np.floor(q)), int(np.ceil(q))}
+        # "the step as close as possible to the pixel size": |dz/k - pix| is smallest for the integer nearest to q except
+        # between 2n(n+1)/(2n+1) and n + 1/2, where n + 1 is closer in step although n is nearer in count: both accepted
+        nq = int(np.floor(q))
+        if nq >= 1 and q >= 2.0 * nq * (nq + 1) / (2 * nq + 1) - 1e-9:
+            nz_cands.add(nq + 1)
+        nz_cands = sorted(k for k in nz_cands if k >= 1) or [1]
+        if len(nz_cands) * max(nz_cands) > 200:
+            nz_cands = nz_cands[:1]
     xs0 = -0.5 * su["dx"] + (np.arange(nx) + 0.5) * su["dx"] / nx
     ys0 = -0.5 * su["dy"] + (np.arange(ny) + 0.5) * su["dy"] / ny
 
@@ -85,6 +132,16 @@ def thick_map(case, r):
     if exc is not None:
         if not isinstance(exc, RuntimeError):
             r.bad(["raises", type(exc).__name__, f"d{d}"], f"{exc!r}")
+            return
+        if omitted or form:
+            # no window / default pixel counts: the error is legitimate iff the slab misses every cell
+            dist = np.abs((m.centre - su["origin"][None, :]) @ n[:d])
+            reach = 0.5 * m.size * np.sum(np.abs(n[:d])) + 0.5 * dzw
+            if omitted and np.any(dist < reach * (1 - 1e-9)):
+                r.bad(["spurious-no-cells-error", f"d{d}", "no-window"], f"RuntimeError although the slab cuts "
+                      f"{int(np.sum(dist < reach))} cells")
+            else:
+                r.label("legit_empty_error")
             return
         idx, amb = columns(nz_cands[0], xs0, ys0)
         if np.any(idx >= 0):
@@ -117,7 +174,31 @@ def thick_map(case, r):
         r.label("column_crosses_cells")
     if problems is not None:
         sig, detail = problems
-        r.bad(sig, detail + f"; nz candidates {nz_cands}, dz/cell {dzw / smed:.3g}, window/cell {su['ratio']:.3g}, op {case['op']}")
+        r.bad(sig, detail + f"; nz candidates {nz_cands}, dz/cell {dzw / smed:.3g}, window/cell {su['ratio']:.3g}, op {case['op']}"
+              + (", window omitted" if omitted else "") + (", operation on the Layers" if case.get("op_at") == "layer" else ""))
+        return
+    if case.get("schedule"):
+        # any thread schedule: other thread counts and a permuted cell order give the same columns
+        r.label("schedule_checked")
+        judged = ~verdicts[0][2].any(axis=0)
+        perm = np.random.RandomState(case["mesh"]["seed"]).permutation(m.n)
+        dg2 = dg[perm]
+        lkw = {"operation": case["op"]} if case.get("op_at") == "layer" else {}
+        for threads, group in ((1, dg), (3, dg2)):
+            p2, exc2 = c03.run_map(c03.make_layers(case, group, **lkw), kw, threads=threads)
+            if exc2 is not None:
+                r.bad(["schedule", "raises", type(exc2).__name__], f"threads={threads}: {exc2!r}")
+                return
+            for name, l1, l2 in zip(case["layers"], p.layers, p2.layers):
+                m1, m2 = np.ma.getmaskarray(l1["data"]), np.ma.getmaskarray(l2["data"])
+                v1, v2 = np.ma.getdata(l1["data"]), np.ma.getdata(l2["data"])
+                dec = judged[..., None] if name in c03.VEC_MODES else judged
+                with np.errstate(all="ignore"):
+                    differ = dec & ~m1 & ~m2 & (np.abs(v1 - v2) > 1e-12 * (np.abs(v1) + np.abs(v2)))
+                if np.any(dec & (m1 != m2)) or np.any(differ):
+                    r.bad(["schedule", "result-differs"], f"threads={threads} permuted={group is dg2}: layer {name} differs on "
+                          f"judged columns")
+                    return
 
 
 def _judge(case, r, p, m, u, v, idx, amb, zstep, fpos, d):
@@ -125,9 +206,11 @@ def _judge(case, r, p, m, u, v, idx, amb, zstep, fpos, d):
     nz, ny, nx = idx.shape
     op = case["op"]
     judged = ~amb.any(axis=0)
+    if len(p.layers) != len(case["layers"]):
+        return ["layer-count"], f"{len(p.layers)} layers returned for {len(case['layers'])} given"
     for name, lay in zip(case["layers"], p.layers):
-        cv = c03.cell_layer_values(name, m, u, v)
-        isvec = name == "vec"
+        cv = c03.cell_layer_values("vec" if name == "vec_stream" else name, m, u, v)
+        isvec = name in c03.VEC_MODES
         data = lay["data"]
         mask = np.ma.getmaskarray(data)
         vals = np.ma.getdata(data)
@@ -156,8 +239,7 @@ def _judge(case, r, p, m, u, v, idx, amb, zstep, fpos, d):
             gu = um.from_pint(lay["unit"])
         except um.UnknownUnit as ex:
             raise RuntimeError(f"unit model does not know {ex}")
-        base = {"scalar1": um.parse("K"), "scalar2": um.parse("g/cm**3"), "vec": um.parse("km/s"),
-                "vecnorm": um.parse("km/s")}[name]
+        base = um.parse(c03.LAYER_UNIT[name])
         wu = um.umul(base, um.parse("cm")) if scale_z else base
         if not um.same_dims(gu, wu):
             return ["unit", "op=" + op], f"layer {name} unit [{lay['unit']}] for operation {op}"
@@ -179,4 +261,5 @@ def _judge(case, r, p, m, u, v, idx, amb, zstep, fpos, d):
 def subs(ctx):
     return [Sub("thick_map", thick_map, strategy=c03.map_case_st(thick=True), quick=260, thorough=1000,
                 required={"slab_thinner_than_cells": 0.15, "column_crosses_cells": 0.1, "resz_given": 0.2,
-                          "op_sum": 0.04, "op_nanmean": 0.04})]
+                          "op_sum": 0.04, "op_nanmean": 0.04, "window_omitted": 0.04, "operation_on_layer": 0.15,
+                          "schedule_checked": 0.1})]
